@@ -128,7 +128,13 @@ def cases(draw):
 def _svc_recurring(data, cfg):
     from vf import service
 
-    return [{"op": "predict_win", "teams": t} for t in service.lineups(data, cfg, k=8)]
+    jobs = []
+    for t in service.lineups(data, cfg, k=8):
+        # ... each next to the same line-up with the first member of team 0 raised (monotonicity is judged on the pair)
+        up = [[list(p) for p in tm] for tm in t]
+        up[0][0][0] = min(20 * cfg["beta"], up[0][0][0] + data.draw(st.floats(0.1, 3.0)) * cfg["beta"])
+        jobs += [{"op": "predict_win", "teams": t}, {"op": "predict_win", "teams": up}]
+    return jobs
 
 
 def _svc_judge(spec, out, ctx):
@@ -152,6 +158,19 @@ def _svc_judge(spec, out, ctx):
                         raise Violation(f"service:{when}:identical-teams", f"{where}: identical teams {a}, {b} get {p[a]!r}, {p[b]!r}")
             if n == 2 and teams[0] == teams[1] and p != [0.5, 0.5]:
                 raise Violation(f"service:{when}:one-half", f"{where}: two identical teams get {p!r}")
+        for k in range(0, len(spec["recurring"]) - 1, 2):
+            base, up = out[when][k], out[when][k + 1]
+            if isinstance(base, list) and isinstance(up, list) and len(base) == len(up):
+                if up[0] < base[0] - 8 * EPS or any(up[i] > base[i] + 8 * EPS for i in range(1, len(up))):
+                    raise Violation(f"service:{when}:monotonicity", f"{kind} ({when}): raising a member of team 0 ({spec['recurring'][k]['teams'][0][0]} -> "
+                                                                     f"{spec['recurring'][k + 1]['teams'][0][0]}) changes predict_win from {base!r} to {up!r}")
+    for m in out.get("mixed", []):
+        p = m["results"]["predict_win"]
+        n = len(m["teams"])
+        if service.raised(p):
+            raise Violation("service:mixed:raised", f"{kind}: predict_win on a team seen at the start next to never-seen teams raised {p['raised']}")
+        if len(p) != n or any(not (-1e-12 <= x <= 1 + 1e-12) for x in p) or abs(sum(p) - 1.0) > n * 1e-13:
+            raise Violation("service:mixed:distribution", f"{kind}: predict_win on a team seen at the start next to never-seen teams = {p!r}")
 
 
 def _svc(i):
@@ -165,7 +184,7 @@ def _svc(i):
 PROPERTY = Property(
     pid="C09",
     clauses=[
-        Clause(name="long-running-service", kind="custom", custom=lambda *a: _svc(0)(*a), check=lambda *a: _svc(1)(*a), quick=16, thorough=64, shards_quick=16, shards_thorough=16,
+        Clause(name="long-running-service", kind="custom", custom=lambda *a: _svc(0)(*a), check=lambda *a: _svc(1)(*a), quick=48, thorough=128, shards_quick=16, shards_thorough=16,
                rule="one fresh child interpreter and ONE long-lived model per case: predict_win on 11 recurring line-ups (newcomers on default ratings incl. identical "
                     "teams + generated ones) first, then 9 000 (quick) / 70 000 (thorough) other calls with ever new line-ups, then the recurring calls again: range, "
                     "sum 1, identical teams equal, exactly one half for two identical teams - early and late; non-trivial = at least 4 200 calls in between"),Clause(name="distribution-symmetry-monotonicity", strategy=cases(), check=check_c09, quick=8000, thorough=150000,
